@@ -106,6 +106,10 @@ class Gen:
                     "seed": rng_.randint(0, 10 ** 6), "binz": self.binz, "n_jobs": 1}
         if profile.get("fix_lp"):
             self.cfg["lp"].update(profile["fix_lp"].get(self.lpk, {}))
+        if npk is None and self.lpk in LIN_KINDS and profile.get("allow_scale") and \
+                random.Random("scale/%s" % self.cfg["seed"]).random() < 0.3:
+            # per-arm standardisation: the scaler statistics are an oracle for the model (model/impl correspondence only)
+            self.cfg["lp"]["scale"] = True
         if npk is None and profile.get("free_n_jobs", True):
             # without a neighbourhood policy n_jobs only distributes the per-arm training tasks (no draws are taken
             # there), so every check can vary it; derived from the bandit's seed to keep the scenario stream stable
@@ -289,7 +293,13 @@ class Gen:
         elif cls == "few_rows":
             n = self.cfg["np"]["n"] - 1
             # a first partial_fit is a fit: too few rows are rejected there as well
-            op = {"op": "fit" if self.fitted else rng.choice(["fit", "pfit"]), "d": d[:n], "r": r[:n], "c": c[:n]}
+            cc = c[:n]
+            if self.fitted and rng.random() < 0.5:
+                # ... with another number of columns than the stored history (the rejected call must not re-dimension
+                # anything that survives it)
+                w = rng.choice([x for x in (1, 2, 3, 4) if x != self.d])
+                cc = [[float(rng.randint(0, 4)) for _ in range(w)] for _ in cc]
+            op = {"op": "fit" if self.fitted else rng.choice(["fit", "pfit"]), "d": d[:n], "r": r[:n], "c": cc}
         elif cls == "not_fit":
             op = {"op": rng.choice(["pexp", "pred"]), "c": self.query_rows(1) if self.contextual else None}
         elif cls == "pred_ctx_missing":
